@@ -658,6 +658,70 @@ def check_value(run, S, name, expected, rule='K3 ring conformance', post=None, a
     return ok
 
 
+def check_option_inverse(run, S, name, n, expect_fn=None, rule='K5 guard pass-set', tag='inverse'):
+    """`Option` result of inverting the n x n matrix argument a0, decided path by path: a None leaf lies on a path that
+    tested det(M) == 0 true, a Some leaf on a path that tested it false and carries expect_fn(M^-1) (default: M^-1 = adj/det
+    itself).  Equalities tested on the path (a fast path for affine matrices, say) are substituted first, so the
+    determinant test may be that of a sub-block as long as it IS det(M) under the path condition."""
+    r = run.use_root(S, name)
+    if r is None:
+        run.ob('%s:%s:present' % (run.prop, name), False, rule='root-present', expected='root', found='missing')
+        return
+    where = r.get('span')
+    ls = ret_leaves(r['out'])
+    bad = [l for g_, l in ls if l['k'] != 'ret']
+    if not run.ob('%s:%s:shape' % (run.prop, name), not bad and len(ls) <= 64, rule=rule, expected='Return leaves only (None / Some)', found=[(l['k'], l.get('why')) for l in bad][:2] or len(ls), where=where):
+        return
+    a = sm('a0', n)
+    seen = {'None': 0, 'Some': 0}
+    for li, (guards, leaf) in enumerate(ls):
+        sfx = '' if len(ls) == 2 else ':path%d' % li
+        key = '%s:%s' % (run.prop, name)
+        eqs = _leaf_equalities(S, guards)
+        cv0 = Conv(S)
+        env, mapping = {}, {}
+        for an, tid in eqs.items():
+            e_ = cv0.el(tid)
+            env[an] = e_
+            mapping[A.CTX.atom(an)] = e_
+        cv = Conv(S, env=env) if env else cv0
+        aM = _subst_struct(a, mapping)
+        with path_hyps(S, guards):
+            D = A.det(aM)
+            det_truth = None
+            shown = []
+            for kind, tid, want in guards:
+                if kind != 'ite':
+                    continue
+                g_ = parse_guard(S, cv, tid)
+                if g_['kind'] != 'eq':
+                    continue
+                d = g_['a'] - g_['b']
+                if A.eq(d, D) or A.eq(d, -D):
+                    det_truth = (want != g_['neg'])
+                    shown.append(g_['text'][:100])
+            v = leaf['v']
+            if v.get('n') == 'None':
+                seen['None'] += 1
+                run.ob(key + ':none' + sfx, det_truth is True, rule=rule, expected='None only on a path that found det(M) == 0 (Leibniz determinant, up to sign, under the path condition)',
+                       found=shown or [S.show(t)[:80] for k_, t, w in guards][:4], where=where)
+            elif v.get('n') == 'Some':
+                seen['Some'] += 1
+                if not run.ob(key + ':guard' + sfx, det_truth is False, rule=rule, expected='Some only on a path that found det(M) != 0 (exact test, up to sign, under the path condition)',
+                              found=shown or [S.show(t)[:80] for k_, t, w in guards][:4], where=where):
+                    continue
+                if D.zero():
+                    run.ob(key + ':guard' + sfx + ':det', False, rule=rule, expected='a non-zero determinant polynomial on this path', found='0', where=where)
+                    continue
+                adj = A.adjugate(aM)
+                Minv = [[adj[c][r_] / D for r_ in range(n)] for c in range(n)]
+                exp = expect_fn(Minv, mapping) if expect_fn else Minv
+                cmp_struct(run, S, name + sfx.replace(':', '_'), cv.val(v['f'][0]), exp, 'K3 field conformance: N = adj(M)/det(M)', where=where, tag=tag)
+            else:
+                run.ob(key + ':some' + sfx, False, rule=rule, expected='Option', found=S.showval(v)[:100], where=where)
+    run.ob('%s:%s:cases' % (run.prop, name), seen['None'] >= 1 and seen['Some'] >= 1, rule=rule, expected='both a None and a Some outcome exist', found=seen, where=where)
+
+
 def bool_conjunction(S, out):
     """If the outcome tree is a short-circuit conjunction returning bool, give the list of condition
     term ids (in evaluation order); else None.  Accepts `a && b && c` in MIR shape:
